@@ -1,7 +1,7 @@
 #define REG_SLOT(c) gh_INSTANCE = (void *)AW_INSTANCE; gh_DISABLED = (void *)AW_DISABLED; gh_P_cell = 0; ATOMAW *c = malloc(sizeof(ATOMAW)); __CPROVER_assume(c != 0); gh_F_slot = (void **)&c->_M_b._M_p
 #define REG_NODE(n) AWT *n = malloc(sizeof(AWT)); __CPROVER_assume(n != 0); gh_my_node = n; gh_node_own = OWN_ME
 #ifdef CV_HAS_aw_subscribe_check_ready
-void h_subscribe_check_ready(void) { REG_SLOT(c); REG_NODE(n); aw_subscribe_check_ready(n, c, (AWT *)AW_DISABLED); __CPROVER_assert(0, "SENTINEL reachable"); }
+void h_subscribe_check_ready(void) { REG_SLOT(c); REG_NODE(n); cv_i1 r = aw_subscribe_check_ready(n, c, (AWT *)AW_DISABLED); if (r) __CPROVER_assert(0, "SENTINEL reachable: subscribed"); else __CPROVER_assert(0, "SENTINEL reachable: refused (already resolved)"); }
 #endif
 #ifdef CV_HAS_aw_resume_chain_set_ready
 void h_resume_chain_set_ready(void) { REG_SLOT(c); SP *r; aw_resume_chain_set_ready(r, c, (AWT *)AW_DISABLED); __CPROVER_assert(0, "SENTINEL reachable"); }
@@ -15,13 +15,13 @@ void h_resume(void) { SP *r; AWT *a; aw_resume(r, a); __CPROVER_assert(0, "SENTI
 void h_co_await_ready(void) { REG_COAW(a); co_await_ready(a); __CPROVER_assert(0, "SENTINEL reachable"); }
 #endif
 #ifdef CV_HAS_co_await_suspend
-void h_co_await_suspend(void) { REG_COAW(a); gh_my_node = CO_NODE(a); gh_node_own = OWN_ME; cv_i8 *h; co_await_suspend(a, h); __CPROVER_assert(0, "SENTINEL reachable"); }
+void h_co_await_suspend(void) { REG_COAW(a); gh_my_node = CO_NODE(a); gh_node_own = OWN_ME; cv_i8 *h; cv_i1 r = co_await_suspend(a, h); if (r) __CPROVER_assert(0, "SENTINEL reachable: suspended"); else __CPROVER_assert(0, "SENTINEL reachable: not suspended"); }
 #endif
 #ifdef CV_HAS_co_await_suspend_fn
 void h_co_await_suspend_fn(void) { REG_COAW(a); gh_my_node = CO_NODE(a); gh_node_own = OWN_ME; void (*fn)(SP *, AWT *, cv_i8 *); cv_i8 *c; co_await_suspend_fn(a, fn, c); __CPROVER_assert(0, "SENTINEL reachable"); }
 #endif
 #ifdef CV_HAS_co_sync
-void h_co_sync(void) { REG_COAW(a); gh_my_node = 0; gh_node_own = OWN_NONE; co_sync(a); __CPROVER_assert(0, "SENTINEL reachable"); }
+void h_co_sync(void) { REG_COAW(a); gh_my_node = 0; gh_node_own = OWN_NONE; co_sync(a); if (gh_wait_calls) __CPROVER_assert(0, "SENTINEL reachable: blocked and woken"); else __CPROVER_assert(0, "SENTINEL reachable: already resolved"); }
 #endif
 #ifdef CV_HAS_co_force_sync
 void h_co_force_sync(void) { REG_COAW(a); gh_my_node = 0; gh_node_own = OWN_NONE; co_force_sync(a); __CPROVER_assert(0, "SENTINEL reachable"); }
